@@ -74,6 +74,11 @@ def main(tier, only=None):
     if want("divzero"):
         for r in ("div", "mod"):
             hs.append(H("h_divzero_" + r, "divzero/%s" % r, (), "divzero", 300, 11))
+        trapflags = tuple(f for f in FLAGS if f != "--no-signed-overflow-check") + ("--signed-overflow-check",)
+        for r in ("div", "mod"):
+            hs.append(e1.H("h_divtrap_" + r, "divtrap/%s" % r, unwind=24, defines=mulb, flags=trapflags, std=False, replace_calls=RC, object_bits=11,
+                           timeout=300 * (6 if thorough else 1), family="divzero",
+                           desc="INT64_MIN / -1 and INT64_MIN % -1 are never executed on the host (cbmc's signed div/mod overflow property = the SIGFPE condition)"))
     if hs:
         e1.run_set(chk, "c07/fold.c", hs, workers=8, extra_src=extra)
 
